@@ -1123,6 +1123,14 @@ impl World {
         let t: Vec<i128> = ticks.iter().map(|x| x.0).collect();
         env::set_clock(now, &t);
         env::set_validators(validator_table(spec));
+        if spec.default_validators && spec.layer == Layer::Batteries {
+            // let the wall clock visibly advance between two parses of a default parser (25 us), so that a
+            // reading carried over from an earlier parse is recognisable as such (env::now)
+            let t0 = std::time::Instant::now();
+            while t0.elapsed() < std::time::Duration::from_micros(25) {
+                std::hint::spin_loop();
+            }
+        }
         let outcome = match key {
             None => match env::guarded(|| obj.deliver(text)) {
                 Ok(o) => o,
@@ -1142,7 +1150,10 @@ impl World {
             .into_iter()
             .map(|c| CallObs { slot: c.slot, key: c.key, value: c.value, returned_ok: c.returned_ok })
             .collect();
-        let reads = reads_obs(env::take_clock_reads());
+        let mut reads = reads_obs(env::take_clock_reads());
+        for site in env::take_stale_reads() {
+            reads.push((format!("STALE:{}", site), Ns(0)));
+        }
         Some(DeliverObs { outcome, calls, reads })
     }
 
